@@ -1,0 +1,7 @@
+//go:build !verif
+
+package core
+
+// simGate is a schedule point for deterministic-simulation builds (build tag "verif",
+// see sim_verif.go). In normal builds it is an empty function that the compiler inlines away.
+func simGate(name string) {}
